@@ -9,6 +9,8 @@ import (
 	"sync"
 	"time"
 
+	"github.com/evstack/ev-node/pkg/store"
+
 	"verifharness/monitors"
 	"verifharness/vk"
 	"verifharness/world"
@@ -88,19 +90,15 @@ func (s *scenario) end(p *proc) {
 			}
 		}
 	}
-	// heights covered by a durable chain-height record
-	if raw, ok := s.im.Get("/t"); ok && len(raw) == 8 {
-		var t uint64
-		for i := 7; i >= 0; i-- {
-			t = t<<8 | uint64(raw[i])
-		}
-		st := world.NewMemDS(s.im)
+	// heights covered by a durable chain-height record (read through the store's own API on the frozen image)
+	st := store.New(world.NewMemDS(s.im))
+	if t, err := st.Height(s.ctx); err == nil && t < 1<<40 {
 		for h := s.c.Initial; h <= t; h++ {
 			if _, ok := s.durable[h]; ok {
 				continue
 			}
-			if b, ok := st.Image().Get(fmt.Sprintf("/h/%d", h)); ok {
-				s.durable[h] = append([]byte{}, b...)
+			if hdr, err := st.GetHeader(s.ctx, h); err == nil && hdr != nil {
+				s.durable[h] = append([]byte{}, hdr.Hash()...)
 			}
 		}
 	}
@@ -252,24 +250,17 @@ func runCase(r *vk.Run, c Case) (crashedAt []bool) {
 			viol = append(viol, fmt.Sprintf("block %d was published before a crash and is different (or missing) afterwards", h))
 		}
 	}
-	for h, raw := range s.durable {
+	stEnd := store.New(world.NewMemDS(s.im))
+	for h, hash := range s.durable {
 		r.Hit("committed-unchanged")
-		cur, ok := s.im.Get(fmt.Sprintf("/h/%d", h))
-		if !ok || !bytes.Equal(cur, raw) {
+		cur, err := stEnd.GetHeader(s.ctx, h)
+		if err != nil || cur == nil || !bytes.Equal(cur.Hash(), hash) {
 			viol = append(viol, fmt.Sprintf("block %d was committed (chain height durable) before a crash and its stored header changed afterwards", h))
 		}
 	}
-	// chain-height writes over all processes: never down, never skipping
-	var hw []uint64
-	for _, l := range s.logs {
-		hw = append(hw, monitors.HeightWrites(l)...)
-	}
-	for i := 1; i < len(hw); i++ {
-		r.Hit("height-writes")
-		if hw[i] != hw[i-1]+1 {
-			viol = append(viol, fmt.Sprintf("chain-height writes across restarts are not consecutive: %v", hw))
-			break
-		}
+	// chain-height writes over all processes: never down while running, never skipping
+	for _, p := range monitors.CheckHeightWritesAcross(s.logs, r.Hit) {
+		viol = append(viol, p.String())
 	}
 	if len(viol) > 0 {
 		fail("chain-after-recovery", strings.Join(viol, " ;; "))
